@@ -642,12 +642,12 @@ def normalise(j):
 
 
 class Crate:
-    def __init__(self, path, known_names=None):
-        self.j = normalise(json.load(open(path)))
+    def __init__(self, path, known_names=None, preloaded=None, helper_keys=None):
+        self.j = preloaded if preloaded is not None else normalise(json.load(open(path)))
         self.name = self.j['crate']
         self.inlined_helpers = set()
-        if known_names is not None:
-            self.inlined_helpers = inline_unknown_helpers(self.j, known_names)
+        if known_names is not None or helper_keys is not None:
+            self.inlined_helpers = inline_unknown_helpers(self.j, known_names or set(), helper_keys)
         self.all_bodies = [Body(b, self) for b in self.j['bodies']]
         # helpers that were inlined into their callers are analysed there, not on their own
         self.bodies = [b for b in self.all_bodies if b.key not in self.inlined_helpers]
@@ -832,13 +832,16 @@ def _inline_one(caller, bb, callee):
     caller.setdefault('inlined', []).append(callee['pretty'])
 
 
-def inline_unknown_helpers(j, known_names, max_rounds=3):
-    """j: crate JSON. Inline calls to crate-local fn items whose name is not in known_names."""
+def inline_unknown_helpers(j, known_names, helper_keys=None, max_rounds=3):
+    """j: crate JSON. Inline calls to crate-local fn items the rules have never seen: those in helper_keys
+    (functions that could not be aligned with a function of the reference tree) or, without a reference,
+    those whose name is not in known_names."""
     import copy
     by_key = {b['key']: b for b in j['bodies']}
     helpers = {}
     for b in j['bodies']:
-        if b['kind'] in ('Fn', 'AssocFn') and b.get('name') and b['name'] not in known_names and not b.get('impl_trait') \
+        unknown = (b['key'] in helper_keys) if helper_keys is not None else (b.get('name') and b['name'] not in known_names)
+        if b['kind'] in ('Fn', 'AssocFn') and b.get('name') and unknown and not b.get('impl_trait') \
                 and len(b['blocks']) <= 80:
             helpers[b['key']] = b
     if not helpers:
